@@ -1,1 +1,31 @@
-fn main() {}
+use hagg::walk::{Gen, HistoryCfg};
+use hagg::*;
+
+#[tokio::main(flavor = "multi_thread", worker_threads = 4)]
+async fn main() {
+    silence_stdout();
+    install_panic_hook();
+    let cfg = HistoryCfg { n_signers: 3, k: 5, m: 100, events: 0, with_csd: false, restarts: false, jumps: false, sparse_regs: false };
+    let mut g = Gen::new("c16_probe", &cfg).await;
+    g.w.tick().await;
+    for p in 0..3 { g.w.register(p, 2).await; }
+    g.w.epoch_up(1).await;
+    for _ in 0..3 { g.w.tick().await; }
+    let ent = g.w.last_dump.oms[0].ent;
+    // B = 1 signs under own label
+    eprintln!("B own: {:?}", g.sign_and_submit_as(ent, 1, 1, 1, false, ent).await);
+    // copy of B's signature under label A = 0
+    eprintln!("B as A: {:?}", g.sign_and_submit_as(ent, 1, 0, 1, false, ent).await);
+    let d = g.w.dump();
+    for r in &d.sigs { eprintln!("row party={} sigma={}", g.w.party_ord(&r.party), &r.signature[..24]); }
+    let (ok, _) = g.w.tick().await;
+    eprintln!("tick ok={} certs={}", ok, g.w.last_cert_count);
+    eprintln!("A own: {:?}", g.sign_and_submit_as(ent, 0, 0, 1, false, ent).await);
+    let (ok, _) = g.w.tick().await;
+    eprintln!("tick ok={} certs={}", ok, g.w.last_cert_count);
+    // unregistered label
+    g.w.tick().await;
+    let ent2 = g.w.last_dump.oms.last().unwrap().ent;
+    eprintln!("C as nobody: {:?}", g.sign_and_submit_as(ent2, 2, 3 + 7, 1, false, ent2).await);
+    for o in &g.w.obs { eprintln!("{}", o); }
+}
